@@ -1202,13 +1202,16 @@ fn fam_misuse(s: &Script, st: &mut Stats) -> Result<RunInfo, Violation> {
                     }
                 }
                 11 => {
-                    // the bound functions take no buffer: a NULL stream is fine and the two bounds agree
+                    // the bound functions take no buffer: a NULL stream must not matter (values are C15's business)
                     let n = (a.max(0) as c_ulong) * 977 + data.len() as c_ulong;
                     let b1 = c::mz_deflateBound(std::ptr::null_mut(), n);
-                    let b2 = c::mz_compressBound(n);
-                    if b1 != b2 || b1 < n {
-                        return viol("C17.misuse_returns_error_code", format!("mz_deflateBound(NULL, {}) = {}, mz_compressBound = {}", n, b1, b2));
+                    let mut z = c::mz_stream::default();
+                    let b2 = c::mz_deflateBound(&mut z, n);
+                    let b3 = c::mz_compressBound(n);
+                    if b1 != b2 {
+                        return viol("C17.misuse_returns_error_code", format!("mz_deflateBound({}) depends on the stream argument: NULL -> {}, zeroed stream -> {}", n, b1, b2));
                     }
+                    h.u(b1 as u64 ^ b3 as u64);
                 }
                 12 => {
                     // the default allocator callbacks (what a C caller may store in zalloc / zfree)
